@@ -618,8 +618,29 @@ func drvMacCmd(c *ctx) error {
 						}
 					}(g)
 				}
+				// a watcher polls the shared source while the decoders run: a byte that is changed and put back is seen too
+				var sawChange int32
+				stopWatch := make(chan struct{})
+				watchDone := make(chan struct{})
+				go func() {
+					defer close(watchDone)
+					for {
+						select {
+						case <-stopWatch:
+							return
+						default:
+						}
+						for r := 0; r < 256; r++ {
+							if !bytes.Equal(src, keep) || !bytes.Equal(withCID, keepCID) {
+								atomic.StoreInt32(&sawChange, 1)
+							}
+						}
+					}
+				}()
 				wg.Wait()
-				intact := string(src) == string(keep) && string(withCID) == string(keepCID)
+				close(stopWatch)
+				<-watchDone
+				intact := string(src) == string(keep) && string(withCID) == string(keepCID) && atomic.LoadInt32(&sawChange) == 0
 				var ks []string
 				for s := range seen {
 					ks = append(ks, s)
